@@ -19,7 +19,7 @@ CHECKS = {
             "DESIGN.md 4/C02"),
     "C03": ("model_checking",
             "explicit-state breadth-first search over operation histories (integrate(), integrate(T), dt=) on the real OdeSystem with canonical state hashing, reference direction/target model and per-call invariants in every state; plus buffer-growth cells",
-            "Every history up to the depth bound from every configuration (7 methods x 42 signed spans x 5 initial dt incl. oversized/negative x dtypes x 2 problems) is executed on the real object, rebuilt by replay; after every integrate the call's segment must start where the previous ended, move strictly monotonically to its target, not overshoot, end within 64 eps, stay paired/finite/of the initial dtype. States are deduplicated by a hash over all carried state (buffers, dt, status, integrator caches). Run-away loops are caught by a step budget.",
+            "Every history up to the depth bound from every configuration (7 methods x 42 signed spans x 5 initial dt incl. oversized/negative x dtypes x 2 problems) is executed on the real object, rebuilt by replay; after every integrate the call's segment must start where the previous ended, move strictly monotonically to its target, not overshoot, end within 64 eps, stay paired/finite/of the initial dtype. States are deduplicated by a hash over all carried state (buffers, dt, status, integrator caches). Run-away loops are caught by a step budget. Beside the exact lattice: fixed histories with steps 0.1/0.3, spans at |t| = 1e3 and 1e6, targets a few units in the last place away, and states of rank 0..3 (y' = C integrated exactly).",
             "Depth 2 (quick) / 3 (thorough); lattice times in {-2..2}; a call that raises is outside C03's premise and only counted.",
             "DESIGN.md 4/C03"),
     "C04": ("exploration",
@@ -29,12 +29,12 @@ CHECKS = {
             "DESIGN.md 4/C04"),
     "C05": ("exploration",
             "exhaustive product enumeration (adaptive method x closed-form problem x direction x tolerance ladder x initial dt) with every attempt of every integrator call logged through the real step (retry protocol checked exactly) and a blow-up problem for the give-up clause",
-            "All 9 embedded pairs and 4 Richardson wrappers are run on 5 problems with closed forms in both directions of time along a tolerance ladder and from initial steps between 1e-2 (thorough 1e-4) and larger than the span. Accuracy is compared with C_m*tol*kappa (kappa from the variational equation, C_m a frozen table); the retry protocol (a retry after a controller rejection is strictly smaller, same sign, accepted step not longer than the request) is exact; a finite-time blow-up must end in FailedToMeetTolerances with a finite, monotone, accurate prefix.",
+            "All 9 embedded pairs and 4 Richardson wrappers are run on 5 problems with closed forms in both directions of time along a tolerance ladder and from initial steps between 1e-2 (thorough 1e-4) and larger than the span. Accuracy is compared with C_m*tol*kappa (kappa from the variational equation, C_m a frozen table); the retry protocol (a retry after a controller rejection is strictly smaller, same sign, accepted step not longer than the request) is exact; a finite-time blow-up must end in FailedToMeetTolerances with a finite, monotone, accurate prefix. Plus a decoupled system whose components span twelve orders of magnitude, judged per component (explicit pairs).",
             "Accuracy clause is quantitative (catches gross failures); cells predicted to need > 2e4 steps are declared out of bound and counted.",
             "DESIGN.md 4/C05"),
     "C06": ("model_checking",
             "explicit-state breadth-first search over histories (integrate, integrate(mid), terminal-event stop, faulting integrate) with dense output on; all dense-output invariants evaluated on the real object in every reached state",
-            "From 10 methods (incl. two Richardson wrappers) x 5 signed spans every history to depth 3 is replayed on the real OdeSystem; in every state: exactly one anchored piece per recorded step with end values = rows and end slopes = f(rows), pieces ordered, every interior query (3 per step, scalar, array, grad, system[t]) answered by the containing piece, accuracy against the closed form within the Hermite remainder plus the observed grid error.",
+            "From 10 methods (incl. two Richardson wrappers) x 5 signed spans every history to depth 3 is replayed on the real OdeSystem; in every state: exactly one anchored piece per recorded step with end values = rows and end slopes = f(rows), pieces ordered, every interior query (3 per step, scalar, array, grad, system[t]) answered by the containing piece, accuracy against the closed form within the Hermite remainder plus the observed grid error. Operations include a fault raised by an event function (before the step is committed); separate cells check states of rank 0..3 with an exact oracle (y' = C) for scalar and array queries.",
             "Direction reversal excluded; rounding-level thresholds 16 eps; finding F22 (Richardson wrapper of a low-order base) pinned narrowly.",
             "DESIGN.md 4/C06"),
     "C07": ("exploration",
@@ -79,7 +79,7 @@ CHECKS = {
             "DESIGN.md 4/C14"),
     "C15": ("exploration",
             "exhaustive product enumeration (system x shape x solver / dispatch path x Jacobian source x initial guess x tolerance) with the residual re-evaluated in longdouble at every point reported as a success",
-            "7 systems (incl. singular Jacobian at the root, remote root, two rootless) x shapes (), (n,) for n in {1,2,3,6,12}, (2,3) x {nonlinear_roots via MINPACK, nonlinear_roots via the built-in dogleg/Newton path (longdouble), newtontrustregion, hybrj} x analytic / finite-difference Jacobian x near / far / singular guesses x 3 tolerances: success => ||F(x)|| <= 100 tol (n + ||x||) and the shape of the guess; an exception counts as a reported failure.",
+            "7 systems (incl. singular Jacobian at the root, remote root, two rootless) x shapes (), (n,) for n in {1,2,3,6,12}, (2,3) x {nonlinear_roots via MINPACK, nonlinear_roots via the built-in dogleg/Newton path (longdouble), newtontrustregion, hybrj} x analytic / finite-difference Jacobian x near / far / singular guesses x 3 tolerances: success => ||F(x)|| <= 100 tol (n + ||x||) and the shape of the guess; an exception counts as a reported failure. Plus a family of well-conditioned, stiffly scaled systems (S up to 1e7, n up to 12) where a converged step is not a small residual; the modest multiple is 30, linear in n.",
             "O(1)-scaled systems; MINPACK / LAPACK trusted.",
             "DESIGN.md 4/C15"),
     "C16": ("model_checking",
@@ -89,7 +89,7 @@ CHECKS = {
             "DESIGN.md 4/C16"),
     "C17": ("exploration",
             "exhaustive enumeration of all strictly increasing arrays of length 1..7 over a 9-point grid x 21 queries (scalar and vector search, 4 container types) and of cubic/interval/evaluation-point lattices for the Hermite piece",
-            "The statement's own finite quantifier is enumerated completely: 501 arrays x 21 queries x {float32, float64, longdouble, list} against min(searchsorted_left, n-1); Hermite pieces for 7 cubics x 20 ordered intervals x 37 points x scalar/array data x 3 dtypes against the cubic itself with a derived rounding bound. exhaustive=true.",
+            "The statement's own finite quantifier is enumerated completely: 501 arrays x 21 queries x {float32, float64, longdouble, list} against min(searchsorted_left, n-1); Hermite pieces for 7 cubics x 20 ordered intervals x 37 points x scalar/array data x 3 dtypes against the cubic itself with a derived rounding bound. exhaustive=true. Plus six narrow non-dyadic intervals far from the origin (|t0|/|h| up to 4e5).",
             "Hermite tolerance 64*eps*sum|basis||data| (absolute-coefficient bound); numpy.searchsorted trusted as the specification of 'first element not smaller'.",
             "DESIGN.md 4/C17"),
     "C18": ("exploration",
@@ -99,12 +99,12 @@ CHECKS = {
             "DESIGN.md 4/C18"),
     "C19": ("exploration",
             "exhaustive enumeration of recorded grids x all integer indices in [-len-2, len+2] x a lattice of query times (recorded times and their floating-point neighbours, exact midpoints and +-2^j ulp, outside both ends) x whole-run slices, against python-list semantics",
-            "The real OdeSystem is compared with a boring reference (a python list of rows, IndexError outside, linear nearest-sample search with exact tie handling) for uniform/adaptive grids, forward/backward/through-zero/negative times, one call / continued / partial / never run, dense on/off.",
+            "The real OdeSystem is compared with a boring reference (a python list of rows, IndexError outside, linear nearest-sample search with exact tie handling) for uniform/adaptive grids, forward/backward/through-zero/negative times, one call / continued / partial / never run, dense on/off. Interior time slices are checked under a weak reading (contiguous stretch between the bounds, at most one sample beyond each).",
             "Ties accept either neighbour; whole-run slices written in run order; only python ints are integer indices; dense lookups before the first step carry no claim.",
             "DESIGN.md 4/C19"),
     "C20": ("model_checking",
             "explicit-state breadth-first search over histories (integrate, events, terminal event, rhs fault at its k-th call, reset, dt-assigning callback) with plain integer reference counters inside the user's functions and a callback log",
-            "In every reached state nfev must equal the number of completed user-rhs calls since construction / the last reset (exact integers, including calls made for finite-difference Jacobians, dense output and the constructor's probe), njev the number of Jacobian requests; callbacks are in the given order, see a strictly growing trajectory whose last row is the one just recorded, exactly once per recorded step (landing on a terminal event shares one), and an assigned dt is the next step of a fixed-step method.",
+            "In every reached state nfev must equal the number of completed user-rhs calls since construction / the last reset (exact integers, including calls made for finite-difference Jacobians, dense output and the constructor's probe), njev the number of Jacobian requests; callbacks are in the given order, see a strictly growing trajectory whose last row is the one just recorded, exactly once per recorded step (landing on a terminal event shares one), and an assigned dt is the next step of a fixed-step method. Configurations also run against the configured span; the step after a callback assigned dt must move toward the target of the call.",
             "njev convention after reset is left open; a Jacobian request that raised may or may not be counted.",
             "DESIGN.md 4/C20"),
 }
